@@ -1086,7 +1086,7 @@ pub fn macro_cases(out: &mut Out) {
 
 // dbase and geo-types producers live in their own files
 pub use crate_dbf::{cases_dbf, oracle_c08, v_dbfhist, PairOp};
-pub use crate_geo::cases_geo;
+pub use crate_geo::{cases_geo, parse_geocase, run_geocase, show_geocase, GeoCase, oracle_c20_shape, oracle_c20_geo, oracle_c20_dims};
 #[path = "dbf.rs"]
 mod crate_dbf;
 #[path = "geo.rs"]
